@@ -552,6 +552,12 @@ _zuc_eia3_1_buffer_avx512(const void *pKey, const void *pIv, const void *pBuffer
                 asm_ZucGenKeystream8B_avx(&keyStream[16], &zucState);
         asm_Eia3RemainderAVX512(&T, &keyStream[0], pIn8, remainingBits);
         *pMacI = T;
+
+#ifdef SAFE_DATA
+        /* Clear sensitive data (in stack) */
+        clear_mem(keyStream, sizeof(keyStream));
+        clear_mem(&zucState, sizeof(zucState));
+#endif
 }
 
 /*
@@ -697,6 +703,9 @@ _zuc_eia3_16_buffer_avx512(const void *const pKey[NUM_AVX512_BUFS],
 
                 asm_Eia3RemainderAVX512(&T[i], keyStr32, pIn8[i], remainBits);
                 *(pMacI[i]) = T[i];
+#ifdef SAFE_DATA
+                clear_mem(keyStr32, sizeof(keyStr32));
+#endif
         }
 
 #ifdef SAFE_DATA
